@@ -437,6 +437,12 @@ func skxBody(s Step, k *keys.Key, vers uint16, cr, sr []byte) []byte {
 		if len(sig) > 3 {
 			return cat(params, alg, u16(len(sig)-3), sig)
 		}
+	case 6:
+		return cat(params, alg) // the message ends right after the algorithm identifier
+	case 7:
+		return cat(params, alg, []byte{0}) // ... or one octet later, inside the length field
+	case 8:
+		return cat(params, alg[:len(alg)/2]) // ... or inside the algorithm identifier
 	}
 	return cat(params, alg, vec16(sig))
 }
